@@ -63,6 +63,15 @@ CATALOG = {
                             ui=lambda el, p, i: False, hdr=lambda h, host: "NoSuchSignal" in h),
     "handler_illtyped": dict(host="QPushButton", text="onClicked: edit.setText(1)", attrs=A("handler", typed=False, const=False),
                              ui=lambda el, p, i: False, hdr=lambda h, host: re.search(r"void setup%sClicked\(\)" % cap(host), h) is not None),
+    # handlers written inside a nested-object, gadget or attached group: not supported, so diagnosed -- never accepted and dropped
+    "objmember_handler": dict(host="QTableView", text="horizontalHeader.onSectionClicked: function(index: int) { edit.clear() }", attrs=A("handler", typed=False, const=False),
+                              ui=lambda el, p, i: False, hdr=lambda h, host: "SectionClicked" in h),
+    "objmember_handler_grouped": dict(host="QTreeView", text="header { stretchLastSection: true; onSectionDoubleClicked: edit.clear() }", attrs=A("handler", typed=False, const=False),
+                                      ui=lambda el, p, i: False, hdr=lambda h, host: "SectionDoubleClicked" in h),
+    "gadget_handler": dict(host="QLabel", text="font.onBoldChanged: edit.clear()", attrs=A("handler", typed=False, const=False),
+                           ui=lambda el, p, i: False, hdr=lambda h, host: "BoldChanged" in h),
+    "attached_handler": dict(host="QLabel", text="QLayout.onRowChanged: edit.clear()", attrs=A("handler", typed=False, const=False),
+                             ui=lambda el, p, i: False, hdr=lambda h, host: "RowChanged" in h),
     "unknown_prop": dict(host="QLabel", text="nosuch: 1", attrs=A("prop", known=False, typed=False), ui=_prop("nosuch"), hdr=_upd("nosuch")),
     "illtyped_const": dict(host="QLabel", text="text: 1", attrs=A("prop", assignable=False), ui=_prop("text"), hdr=_upd("text")),
     "illtyped_dyn": dict(host="QLabel", text="text: chk.checked", attrs=A("prop", const=False, assignable=False), ui=_prop("text"), hdr=_upd("text")),
